@@ -505,6 +505,27 @@ Section Alg.
       - rewrite sq_0. ring.
     Qed.
 
+    (* [2Jz, J-] = -2 J-   (i.e. [Jz, J-] = -J-) *)
+    Lemma comm_JzJm i j : (i < n)%nat -> (j < n)%nat ->
+      mmul n Jz2 Jm i j -r mmul n Jm Jz2 i j = ropp (zr 2 *r Jm i j).
+    Proof.
+      intros Hi Hj. unfold mmul.
+      rewrite (sumn_single n (fun k => Jz2 i k *r Jm k j) i) by
+        (try lia; intros k Hk Hne; unfold Jz2; rewrite mz_entry by lia;
+         replace (i =? k)%nat with false by (symmetry; apply Nat.eqb_neq; lia);
+         rewrite zr_0; ring).
+      rewrite (sumn_single n (fun k => Jm i k *r Jz2 k j) j) by
+        (try lia; intros k Hk Hne; unfold Jz2; rewrite mz_entry by lia;
+         replace (k =? j)%nat with false by (symmetry; apply Nat.eqb_neq; lia);
+         rewrite zr_0; ring).
+      unfold Jz2, Jm, rmat. rewrite !mz_entry, mp_entry by lia. rewrite !Nat.eqb_refl.
+      unfold is_sup. destruct (i =? S j)%nat eqn:Q.
+      - apply Nat.eqb_eq in Q. subst i.
+        replace (J - 2 * Z.of_nat j) with ((J - 2 * Z.of_nat (S j)) + 2) by lia.
+        rewrite zr_add. ring.
+      - rewrite sq_0. ring.
+    Qed.
+
     (* Casimir: 2 (J+J- + J-J+) + (2Jz)^2 = J (J+2) 1   (i.e. J^2 = j(j+1)) *)
     Lemma casimir i j : (i < n)%nat -> (j < n)%nat ->
       zr 2 *r (mmul n Jp Jm i j +r mmul n Jm Jp i j) +r mmul n Jz2 Jz2 i j =
@@ -530,6 +551,50 @@ Section Alg.
         replace (J * (J + 2)) with 0 by nia. rewrite !zr_0. ring.
     Qed.
   End Spin.
+  (* ---- jmat(j, 'x'|'y'|'z') from J+ as the code builds them:
+       Jx = (A + A^dag) * 0.5             A = J+,  A^dag = J-
+       Jy = B + B^dag                     B = J+ * (-0.5j),  B^dag = J- * (0.5j)
+       Jz = (2Jz) * 0.5
+     for ANY index matrices P, M, Z2 with [P, M] = Z2 (proved for the spin
+     matrices above), any `half` with half + half = 1 and `im` with im*im = -1 *)
+  Section XYZ.
+    Variables (half im : R).
+    Hypothesis Hhalf : half +r half = rI.
+    Variable n : nat.
+    Variables (P M Z2 : nat -> nat -> R).
+    Hypothesis HPM : forall i j, (i < n)%nat -> (j < n)%nat ->
+      mmul n P M i j -r mmul n M P i j = Z2 i j.
+
+    Definition Jx_ : nat -> nat -> R := fun i j => (P i j +r M i j) *r half.
+    Definition Jy_ : nat -> nat -> R :=
+      fun i j => P i j *r ropp (half *r im) +r M i j *r (half *r im).
+    Definition Jz_ : nat -> nat -> R := fun i j => Z2 i j *r half.
+
+    Lemma sumn_lin4 m c1 c2 c3 c4 f1 f2 f3 f4 :
+      sumn m (fun k => c1 *r f1 k +r c2 *r f2 k +r c3 *r f3 k +r c4 *r f4 k) =
+      c1 *r sumn m f1 +r c2 *r sumn m f2 +r c3 *r sumn m f3 +r c4 *r sumn m f4.
+    Proof. induction m as [|m IH]; simpl; [ring|rewrite IH; ring]. Qed.
+
+    (* [Jx, Jy] = i Jz *)
+    Lemma comm_JxJy i j : (i < n)%nat -> (j < n)%nat ->
+      mmul n Jx_ Jy_ i j -r mmul n Jy_ Jx_ i j = im *r Jz_ i j.
+    Proof.
+      intros Hi Hj. unfold mmul at 1 2.
+      set (c := half *r half *r im).
+      rewrite (sumn_ext n (fun k => Jx_ i k *r Jy_ k j)
+                 (fun k => c *r (P i k *r M k j) +r ropp c *r (P i k *r P k j)
+                           +r c *r (M i k *r M k j) +r ropp c *r (M i k *r P k j)))
+        by (intros k _; unfold Jx_, Jy_, c; ring).
+      rewrite (sumn_ext n (fun k => Jy_ i k *r Jx_ k j)
+                 (fun k => ropp c *r (P i k *r M k j) +r ropp c *r (P i k *r P k j)
+                           +r c *r (M i k *r M k j) +r c *r (M i k *r P k j)))
+        by (intros k _; unfold Jx_, Jy_, c; ring).
+      rewrite !sumn_lin4. fold (mmul n P M i j) (mmul n P P i j) (mmul n M M i j) (mmul n M P i j).
+      pose proof (HPM i j Hi Hj) as H. unfold Jz_. rewrite <- H. unfold c.
+      transitivity ((half +r half) *r (half *r im *r (mmul n P M i j -r mmul n M P i j))); [ring|].
+      rewrite Hhalf. ring.
+    Qed.
+  End XYZ.
 End Alg.
 
 (* ======================================================= qdiags literal flags *)
